@@ -10,8 +10,23 @@ def hdrs_str(hs):
 def op_httpread(f):
     from pyp0f.net.layers.http.read import read_payload
     p = P()
-    d, v, hs = read_payload(bytes.fromhex(f[1]))
-    return f"{'req' if d == p['Direction'].CLIENT_TO_SERVER else 'resp'} {v} {hdrs_str(hs)}"
+    raw = bytes.fromhex(f[1])
+    d, v, hs = read_payload(raw)
+    ans = f"{'req' if d == p['Direction'].CLIENT_TO_SERVER else 'resp'} {v} {hdrs_str(hs)}"
+    # every kind of buffer the API accepts denotes the same message, also when the same buffer object is read again
+    from h11._receivebuffer import ReceiveBuffer
+    rb = ReceiveBuffer()
+    rb += raw
+    ba = bytearray(raw)
+    for name, buf in (("ReceiveBuffer", rb), ("ReceiveBuffer read again", rb), ("bytearray", ba), ("bytearray read again", ba)):
+        try:
+            d2, v2, hs2 = read_payload(buf)
+            a2 = f"{'req' if d2 == p['Direction'].CLIENT_TO_SERVER else 'resp'} {v2} {hdrs_str(hs2)}"
+        except p["E"].PacketError:
+            a2 = "ERR packet"
+        if a2 != ans:
+            return f"DIFFERS({name}: {a2[:80]}) {ans}"
+    return ans
 
 
 def op_httpall(f):
